@@ -16,7 +16,7 @@ pub static PROP: Prop = Prop {
     rule: "a generated target hypergraph G with (a) a sub-hypergraph inclusion with shuffled numbering or a fold merging equal-labelled nodes (valid by construction), (b) the same with one planted flaw (one entry of w or x retargeted, codomain size +-1, one label changed, an incidence list edited), or (c) arbitrary maps; validity, the named failing condition, injectivity and convexity compared with brute-force definitions (product-graph BFS for convexity); non-trivial = a planted-flaw case, or a valid inclusion into a graph with >= 1 outside edge and >= 2 image nodes; distinct = hash of (H, G, w, x)",
     assumptions: &["a rejection may name any condition that is false; which one is reported first is not constrained"],
     fixed: Some(fixed),
-    scale: None,
+    scale: Some(super::scale::c18),
 };
 
 pub struct Arrow {
